@@ -1451,6 +1451,11 @@ func (sa *Application) tryReservedAllocate(headRoom *resources.Resource, nodeIte
 				continue
 			}
 		}
+		// a node that became unschedulable after it was reserved must not get the allocation
+		// required node asks are exempt: they are bound to the node whatever its state
+		if ask.GetRequiredNode() == "" && !reserve.node.IsSchedulable() {
+			continue
+		}
 		// check allocation possibility
 		// we don't care about predicate error messages here
 		result, _ := sa.tryNode(reserve.node, ask) //nolint:errcheck
